@@ -30,7 +30,7 @@ def nonvacuity(ctx):
             raise vlib.Infra("non-vacuity run %s: expected a liveness counterexample, got %r" % (cfg, nv["violated"]))
     ctx.cov["non_vacuity"] = ("each safety invariant fails under its deviation switch (%s); CallsEnd / Released fail when a "
                               "waiter is not woken, when Close skips a connection, and with the pinned lock order of "
-                              "closeWithErr (D12)" % ", ".join(c for _, c, _ in NV_SAFETY))
+                              "closeWithErr (D15)" % ", ".join(c for _, c, _ in NV_SAFETY))
 
 
 def run(ctx):
@@ -65,7 +65,7 @@ def run(ctx):
     nonvacuity(ctx)
 
     # ---- leg B
-    n = 1200 if T else 180
+    n = 1200 if T else 140
     rb = pl.gen_behaviours(ctx, "reuse", "ReuseConn_gen_eager.cfg", n, 150, label="reuse generator (environment waits for the code)")
     rb2 = pl.gen_behaviours(ctx, "reuse", "ReuseConn_gen.cfg", n // 3, 150, label="reuse generator (free interleaving)")
     pb = pl.gen_behaviours(ctx, "pipeline", "LazyPipeline_gen_eager.cfg", n, 120, label="pipeline generator (environment waits for the code)")
